@@ -7,7 +7,7 @@ package cache
 // real libraries run.
 //
 // gzip: an identity transform with framing: header {0x1f, len(name), name}, then one chunk
-// {0x01, len_hi, len_lo, bytes} per Write, trailer {0x00} written by Close.  The reader
+// {0x01, 3-byte big-endian length, bytes} per Write, trailer {0x00} written by Close.  The reader
 // yields io.EOF only after the trailer, io.ErrUnexpectedEOF if the stream ends earlier, and
 // an error for anything that is not a well-formed frame - the contract of a gzip stream.
 //
@@ -65,7 +65,7 @@ func vrtGzipWrite(z *gzip.Writer, p []byte) (int, error) {
 	if err := vrtGzHeader(z, s); err != nil {
 		return 0, err
 	}
-	c := append([]byte{0x01, byte(len(p) >> 8), byte(len(p))}, p...)
+	c := append([]byte{0x01, byte(len(p) >> 16), byte(len(p) >> 8), byte(len(p))}, p...)
 	if _, err := s.w.Write(c); err != nil {
 		return 0, err
 	}
@@ -128,11 +128,11 @@ func vrtGzipRead(z *gzip.Reader, p []byte) (int, error) {
 			s.done = true
 			return 0, io.EOF
 		case 0x01:
-			l, err := vrtReadN(s.r, 2)
+			l, err := vrtReadN(s.r, 3)
 			if err != nil {
 				return 0, io.ErrUnexpectedEOF
 			}
-			s.left = int(l[0])<<8 | int(l[1])
+			s.left = int(l[0])<<16 | int(l[1])<<8 | int(l[2])
 		default:
 			return 0, vrtErrGzip
 		}
@@ -198,3 +198,18 @@ func vrtProtoUnmarshal(b []byte, m proto.Message) error {
 }
 
 func vrtBlockReset(x *CacheDumpBlock) { x.Entries = nil }
+
+// proto.Size: the length of what Marshal produces (for a block or a single entry)
+func vrtProtoSize(m proto.Message) int {
+	switch x := m.(type) {
+	case *CachedEntry:
+		return 2 + len(x.Key) + 2 + len(x.Msg) + 24
+	case *CacheDumpBlock:
+		n := 0
+		for _, e := range x.Entries {
+			n += 2 + len(e.Key) + 2 + len(e.Msg) + 24
+		}
+		return n
+	}
+	return 0
+}
